@@ -2,6 +2,7 @@ package main
 
 import (
 	"bufio"
+	"bytes"
 	"context"
 	"encoding/json"
 	"fmt"
@@ -9,6 +10,7 @@ import (
 	"os"
 	"runtime"
 	"sync"
+	"sync/atomic"
 	"syscall"
 	"time"
 
@@ -39,12 +41,20 @@ type lifeRun struct {
 	sess   map[int][2]uint32 // open exchange of a connection: session id, next client sequence number
 	nsid   uint32
 	served chan struct{}
+	burst  int32   // bursts: completion events are noted without locks and written out once everything is parked
+	doneA  []int32 // per connection: goroutine finished (noted by the hook during a burst)
+	nextID int
+	base   G4
 	ret    bool
 	cancel context.CancelFunc
 }
 
 func (r *lifeRun) Get(ctx context.Context, remote net.Addr) ([]byte, tq.Handler, error) {
 	c := remote.(*net.TCPAddr).Port - 20000
+	if atomic.LoadInt32(&r.burst) == 1 {
+		// a burst: every connection is refused at once, nothing is recorded on the way
+		return nil, nil, fmt.Errorf("refused by the harness")
+	}
 	r.mu.Lock()
 	ref := r.refuse[c]
 	r.mu.Unlock()
@@ -96,6 +106,10 @@ func (r *lifeRun) hook(ev string, args ...interface{}) {
 		r.rec.Emit(E{"e": "add", "c": id(args[1])})
 	case "conn.done":
 		c := id(args[1])
+		if atomic.LoadInt32(&r.burst) == 1 && c < len(r.doneA) {
+			atomic.StoreInt32(&r.doneA[c], 1)
+			return
+		}
 		r.mu.Lock()
 		r.done[c] = true
 		r.mu.Unlock()
@@ -117,7 +131,7 @@ func (r *lifeRun) parked() (bool, string) {
 	r.mu.Lock()
 	defer r.mu.Unlock()
 	for c, fc := range r.conns {
-		if r.done[c] || fc.IsClosed() && r.done[c] {
+		if r.done[c] || c < len(r.doneA) && atomic.LoadInt32(&r.doneA[c]) == 1 {
 			continue
 		}
 		if !fc.accepted() {
@@ -158,6 +172,19 @@ func (r *lifeRun) settle() {
 	r.rec.Emit(E{"e": "unsettled", "who": who})
 }
 
+// serveGoroutines counts the goroutines that still have (*Server).serve on their stack: a connection goroutine is
+// only gone - its deferred wait-group Done included - when it no longer shows up here.
+func serveGoroutines() int {
+	buf := make([]byte, 1<<16)
+	for {
+		n := runtime.Stack(buf, true)
+		if n < len(buf) {
+			return bytes.Count(buf[:n], []byte("tacquito.(*Server).serve("))
+		}
+		buf = make([]byte, 2*len(buf))
+	}
+}
+
 var accMu sync.Mutex
 var accSet = map[*FakeConn]bool{}
 
@@ -188,6 +215,9 @@ func (r *lifeRun) packet(c int) []byte {
 
 func (r *lifeRun) run(sc *LScen) {
 	base := ReadG4()
+	r.base = base
+	r.doneA = make([]int32, 1<<16)
+	r.nextID = 1000
 	r.clk = &Clock{}
 	r.lis = NewFakeListener(r.rec)
 	r.lis.clk = r.clk
@@ -281,6 +311,90 @@ func (r *lifeRun) run(sc *LScen) {
 					close(g)
 				}
 			}
+		case "offern":
+			// c new connections offered back to back
+			for k := 0; k < c; k++ {
+				id := r.nextID
+				r.nextID++
+				nc := NewFakeConn(id, &net.TCPAddr{IP: net.ParseIP("10.9.9.9"), Port: 20000 + id}, r.rec)
+				nc.clk = r.clk
+				nc.quiet = true
+				nc.DeferCl = &r.burst
+				nc.RaddrGate = make(chan struct{})
+				r.mu.Lock()
+				r.conns[id] = nc
+				r.mu.Unlock()
+				r.clk.mu.Lock()
+				r.clk.conns = append(r.clk.conns, nc)
+				r.clk.mu.Unlock()
+				r.lis.Offer(nc)
+			}
+		case "admitall":
+			r.mu.Lock()
+			gates := []chan struct{}{}
+			for id, x := range r.conns {
+				if !r.done[id] && x.RaddrGate != nil {
+					gates = append(gates, x.RaddrGate)
+				}
+			}
+			r.mu.Unlock()
+			for _, gt := range gates {
+				select {
+				case <-gt:
+				default:
+					close(gt)
+				}
+			}
+		case "releaseall", "eofall":
+			// every parked connection goroutine is let go at the same moment: they finish concurrently
+			r.settle()
+			atomic.StoreInt32(&r.burst, 1)
+			r.mu.Lock()
+			live := []*FakeConn{}
+			for id, x := range r.conns {
+				if !r.done[id] && x.accepted() {
+					live = append(live, x)
+				}
+			}
+			r.mu.Unlock()
+			for _, x := range live {
+				if op == "eofall" {
+					x.EOF()
+				} else if x.RaddrGate != nil {
+					select {
+					case <-x.RaddrGate:
+					default:
+						close(x.RaddrGate)
+					}
+				}
+			}
+			r.settle()
+			// all connection goroutines gone (not merely past their last hook)?
+			for i := 0; i < 20000 && serveGoroutines() > 0; i++ {
+				if i < 2000 {
+					runtime.Gosched()
+				} else {
+					time.Sleep(100 * time.Microsecond)
+				}
+			}
+			atomic.StoreInt32(&r.burst, 0)
+			for _, x := range live {
+				if x.IsClosed() {
+					r.rec.Emit(E{"e": "cl", "c": x.ID})
+				}
+				if atomic.LoadInt32(&r.doneA[x.ID]) == 1 {
+					r.mu.Lock()
+					r.done[x.ID] = true
+					if x.IsClosed() {
+						delete(r.conns, x.ID) // finished and closed: nothing left to drive
+					}
+					r.mu.Unlock()
+					r.rec.Emit(E{"e": "done", "c": x.ID})
+				}
+			}
+		case "rest":
+			g := ReadG4().Sub(r.base)
+			r.rec.Emit(E{"e": "rest", "quiet": serveGoroutines() == 0, "gs": g.Sess, "gh": g.Hand, "ga": g.Acc, "gr": g.Rout})
 		case "cancel":
 			cancelled = true
 			cancel()
